@@ -20,6 +20,7 @@ import (
 //
 //	acc     memory access: Op, Src (p|cb|tmp|const), B (const base), Off, V (store/rmw operand)
 //	setcb   local cb := const B          settmp  local tmp := p + B        incp  p := p + B
+//	settmpx local tmp := p <Op> B  (Op = shl|mul|add|sub, 32-bit wrap-around)
 //	call    call $nop                    callgrow call $grow1 (memory.grow 1 inside a callee)
 //	grow    memory.grow B (in place)     brif    if c != 0 branch out of B enclosing blocks
 //	block   block Body end               if      if c != 0 then Body else Else end
@@ -138,6 +139,13 @@ func emit(ss []Stmt) []byte {
 			out = append(out, wb.Cat(i32c(s.B), wb.LocalSet(lCB))...)
 		case "settmp":
 			out = append(out, wb.Cat(wb.LocalGet(lP), i32c(s.B), wb.Op(wasm.OpcodeI32Add), wb.LocalSet(lTmp))...)
+		case "settmpx":
+			// tmp := p <op> B with 32-bit wrap-around (shl / mul / add / sub)
+			opc := map[string]byte{"shl": wasm.OpcodeI32Shl, "mul": wasm.OpcodeI32Mul, "add": wasm.OpcodeI32Add, "sub": wasm.OpcodeI32Sub}[s.Op]
+			if opc == 0 {
+				hx.Fatal("bad settmpx op %q", s.Op)
+			}
+			out = append(out, wb.Cat(wb.LocalGet(lP), i32c(s.B), wb.Op(opc), wb.LocalSet(lTmp))...)
 		case "incp":
 			out = append(out, wb.Cat(wb.LocalGet(lP), i32c(s.B), wb.Op(wasm.OpcodeI32Add), wb.LocalSet(lP))...)
 		case "call":
@@ -325,6 +333,17 @@ func (r *ref) exec(ss []Stmt) int {
 			}
 		case "setcb":
 			r.cb = s.B
+		case "settmpx":
+			switch s.Op {
+			case "shl":
+				r.tmp = r.lp << (s.B % 32)
+			case "mul":
+				r.tmp = r.lp * s.B
+			case "add":
+				r.tmp = r.lp + s.B
+			case "sub":
+				r.tmp = r.lp - s.B
+			}
 		case "settmp":
 			r.tmp = r.lp + s.B
 		case "incp":
